@@ -71,6 +71,71 @@ def gen(tier, rng):
     return cases
 
 
+PS_PT = {1: "U8", 4: "U8x4", 6: "U16x3", 16: "F32x4"}
+SUP_FLT = {(1, 2): "Box", (2, 1): "CatmullRom"}
+
+
+def simulated_histories(res, n, seed):
+    """spec -> implementation: TLC walks random behaviours of the Resizer specification (MC_ResizerSim, full call
+    alphabet, 6 calls with resets) and prints each behaviour's call history; the histories are replayed below."""
+    import subprocess, os, re, json, shutil, time
+    md = vlib.workdir("tlc_sim")
+    env = dict(os.environ, JAVA_TOOL_OPTIONS="-Xss512m -Xmx4g")
+    t0 = time.time()
+    p = subprocess.run(["java", "-XX:+UseParallelGC", "-cp", vlib.TLA_JAR, "tlc2.TLC", "-workers", "1", "-simulate", "num=%d" % n, "-depth", "250",
+                        "-seed", str(seed), "-metadir", md, "-cleanup", "-noGenerateSpecTE", "-config", "MC_ResizerSim.cfg", "MC_ResizerSim.tla"],
+                       cwd=vlib.SPEC, env=env, stdout=subprocess.PIPE, stderr=subprocess.STDOUT, text=True, timeout=1200)
+    shutil.rmtree(md, ignore_errors=True)
+    if "Error:" in p.stdout and "HIST" not in p.stdout:
+        vlib.log(p.stdout[-2000:])
+        raise vlib.ToolError("TLC simulation failed")
+    hists = []
+    for line in p.stdout.split("\n"):
+        m = re.match(r'^<<"HIST", "(.*)">>\s*$', line)
+        if m:
+            hists.append(json.loads(m.group(1).replace('\\"', '"')))
+    # keep maximal histories only
+    keys = [json.dumps(h) for h in hists]
+    uniq = []
+    for h, k in zip(hists, keys):
+        if not any(k2 != k and k2.startswith(k[:-1]) for k2 in keys) and k not in [json.dumps(u) for u in uniq]:
+            uniq.append(h)
+    res.mc.append({"module": "MC_ResizerSim", "simulated_behaviours": n, "histories": len(uniq), "wall_s": round(time.time() - t0, 1),
+                   "what": "TLC simulation of the Resizer specification; call histories replayed into the implementation"})
+    return uniq
+
+
+def cases_from_histories(hists, rng, slot0):
+    cases = []
+    g = 500000
+    slot = slot0
+    for h in hists:
+        slot += 1
+        cases.append(rz.ctl_case(slot, "new"))
+        f = rng.choice([1, 1, 3, 7])          # scale the tiny model sizes (keeps all ratios)
+        for a in h:
+            if a["kind"] == "reset":
+                cases.append(rz.ctl_case(slot, "reset"))
+                continue
+            pt = PS_PT[a["ps"]]
+            sw, sh, dw, dh = a["sw"] * f, a["sh"] * f, a["dw"] * f, a["dh"] * f
+            box = tuple(v * f for v in a["box"])
+            Q = a["Q"]
+            if a["kind"] == "zero":
+                dw = 0
+            elif a["kind"] == "badcrop":
+                box = (Q, Q, sw * Q, sh * Q)
+            g += 1
+            seed = rng.randint(1, 10 ** 9)
+            flt = SUP_FLT[(a["sn"], a["sd"])]
+            for rzid in (-1, slot):
+                chk = ["pipeline", "no_panic", "outside", "srcsame"] + (["memo_exact"] if rzid >= 0 else [])
+                cases.append(rz.resize_case(pt, sw, sh, dw, dh, alg=a["alg"], flt=flt, m=a["m"], alpha=a["useAlpha"], box=box, Q=Q,
+                                            cpu=rng.choice(rz.CPUS), rz=rzid, src_c={"g": "rand", "seed": seed, "flo": 0.0, "fhi": 1.0},
+                                            log=("digest",), chk=chk, g=g, sent=seed % 9973))
+    return cases
+
+
 def run(res, tier, seed):
     rng = random.Random(seed)
     for cfg, what in (("MC_Resizer.cfg", "pipeline, every single call of the alphabet"),
@@ -85,6 +150,9 @@ def run(res, tier, seed):
         if not r["ok"]:
             res.violation(what="MC_Resizer invariant violated (full)", detail=r["error"])
     cases = gen(tier, rng)
+    hists = simulated_histories(res, 60 if tier == "quick" else 1500, seed)
+    cases += cases_from_histories(hists, rng, 100000)
+    res.cov["tlc_generated_histories"] = len(hists)
     bad, recs = rz.run_resize_trace(res, "c09", cases)
     report(res, "C09", bad)
     res.samples = [rz.describe(c) for c in cases[:14]]
